@@ -44,7 +44,8 @@ ASSUMPTIONS = [
     'numbers of the column and for zero (validated against the real DisplayContext on every generated column; '
     'failures are reported as violations); their cells are checked on the implementation output by check_table only',
     'Inventory columns without expand (per-commodity tabular layout) and CostRenderer are not in the functional model; '
-    'non-expanded inventories are checked relationally (token stream), Cost columns not generated; EnumRenderer '
+    'non-expanded inventories are checked relationally (token stream), Cost columns by the harness oracle check_cost_text '
+    '(computed from the emitted text, outside Coq); EnumRenderer '
     '(ObjectRenderer with format = value.name) is modelled as a str column over the member names',
     'values are well typed for their column (BQL columns are typed); dict/other objects enter the model as their str()',
     'per-slot alignment of non-expanded inventory columns (slot_alignment, computed in the harness from the emitted text) applies to '
@@ -100,7 +101,7 @@ EXACT = {'int', 'decimal', 'str', 'date', 'bool', 'set', 'object', 'dict', 'enum
 COQ_T = {'int': 'TInt', 'decimal': 'TDecimal', 'str': 'TStr', 'date': 'TDate', 'bool': 'TBool', 'set': 'TSet',
          'object': 'TObject', 'dict': 'TObject', 'enum': 'TStr', 'amount': 'TAmount', 'position': 'TPosition', 'inventory': 'TInventory'}
 PY_T = {'int': int, 'decimal': D, 'str': str, 'date': datetime.date, 'bool': bool, 'set': set, 'object': object,
-        'dict': dict, 'enum': Flag, 'amount': Amount, 'position': Position, 'inventory': Inventory}
+        'dict': dict, 'enum': Flag, 'amount': Amount, 'position': Position, 'inventory': Inventory, 'cost': Cost}
 
 INTS = [0, 1, 5, -3, 42, 12345, -100, 10 ** 12, -(10 ** 9), 7, 99, 100]
 DECS = ['0', '1', '1.0', '-1.5', '12.345', '0.001', '-0.0', '100', '2.50', '-123456.78', '0.000001', '3', '0.5', '10',
@@ -282,6 +283,8 @@ def cell_py(c):
         return dict(c[1])
     if k == 'A':
         return Amount(D(c[1]), c[2])
+    if k == 'C':       # ['C', number, currency, [y, m, d] | None, label | None]
+        return Cost(D(c[1]), c[2], None if c[3] is None else datetime.date(*c[3]), c[4])
     if k == 'P':
         return mkpos(c[1:])
     if k == 'I':
@@ -712,6 +715,185 @@ def signature(case, o, fail):
     return f'{kind}:{code}:{types}:{",".join(features(case)) or "plain"}'
 
 
+# ------------------------------------------------------------------ Cost columns (`SELECT position.cost`, CostRenderer)
+# Not in the Coq model (no TCost): the oracle is computed here from the property TEXT on the emitted text alone:
+# every line has one width; the columns start at the offsets given by the rule line and are separated by the table's
+# separator on every line; the other columns hold exactly their values; each cost cell reads back (number at the ledger
+# precision, currency, date, label: the label between the outer quotes is the label itself or its Beancount string-literal
+# spelling); the numbers of the column are aligned on the decimal point and the currencies start at one offset; the CSV
+# output has one record per row, one field per column, the cost field holding the same formatted value as the text cell.
+COST_LABELS = ['', 'lot-1', 'first lot', 'the "big" lot', '"', '""', 'a\\b', 'back\\slash\\', 'C:\\lots\\2020', 'été ü',
+               ' lead', 'trail ', 'x' * 18, 'say "hi" \\ "bye"', "it's", 'a, b', 'k', 'Ω-lot', 'tab\there']
+COST_RE = re.compile(r'^ *(?P<num>-?\d+(?:\.\d+)?) +(?P<cur>[^ ,]+) *(?:, (?P<date>\d{4}-\d\d-\d\d))?(?:, "(?P<label>.*)")? *$')
+
+
+def gen_cost_table(rng):
+    """One Cost column (labels with quotes, backslashes, non-ASCII, blanks; with and without date), columns to its
+    left and right; the label with special characters is often the longest of the column."""
+    curs = rng.sample(CURS, rng.choice([1, 1, 2, 3]))
+    nums = NUMS if rng.random() < 0.6 else rng.sample(NUMS, 4)
+    prec = {c: rng.choice([0, 2, 2, 3, 4]) for c in curs}
+    if rng.random() < 0.3:
+        for c in rng.sample(curs, rng.randint(1, len(curs))):
+            del prec[c]
+    labels = rng.sample(COST_LABELS, rng.choice([1, 2, 3, 5]))
+    label_p = rng.choice([0.4, 0.8, 1.0])
+    date_p = rng.choice([0.0, 0.5, 1.0])
+    null_p = rng.choice([0.0, 0.0, 0.2])
+    left = rng.choice([[], [['l', 'str']], [['account', 'str']], [['d', 'date']]])
+    right = rng.choice([[], [['n', 'int']], [['n', 'int']], [['narration_long_header', 'str']], [['flag', 'bool'], ['n', 'int']]])
+    cols = left + [[rng.choice(['cost', 'c', 'position_cost', '']), 'cost']] + right
+    feat = {'curs': curs, 'nums': nums, 'cost_p': 0.0}
+    rows = []
+    for _ in range(rng.choice([1, 2, 3, 4, 5, 7])):
+        if rng.random() < null_p:
+            c = None
+        else:
+            c = ['C', rng.choice(nums), rng.choice(curs), list(rng.choice(DATES)) if rng.random() < date_p else None,
+                 rng.choice(labels) if rng.random() < label_p else None]
+        rows.append([gen_cell(rng, t, null_p, feat) for _, t in left] + [c] + [gen_cell(rng, t, null_p, feat) for _, t in right])
+    return {'cols': cols, 'rows': rows, 'prec': prec}
+
+
+def _bql_string(s):
+    return s.replace('\\', '\\\\').replace('"', '\\"')
+
+
+def _plain(c):
+    """the exact text of a non-NULL cell of the plain datatypes used next to the cost column"""
+    if c[0] == 'D':
+        return datetime.date(c[1], c[2], c[3]).isoformat()
+    if c[0] == 'b':
+        return 'TRUE' if c[1] else 'FALSE'
+    return str(c[1])
+
+
+def check_cost_text(case, o, text, csvtext):
+    """-> sorted list of failure codes (str) of the cost-table oracle on the emitted text / CSV"""
+    bad = set()
+    if not isinstance(text, str) or not isinstance(csvtext, str):
+        return ['exception']
+    lines = text.split('\n')
+    if lines[-1] != '':
+        return ['no-final-newline']
+    lines = lines[:-1]
+    if len({len(ln) for ln in lines}) > 1:
+        bad.add('lines-of-different-width')
+    spans = column_spans(o, lines)
+    b = 1 if o['boxed'] else 0
+    body = lines[b + 2:len(lines) - b]
+    step = 2 if o['spaced'] else 1
+    if spans is None or len(spans) != len(case['cols']) or len(body) != step * len(case['rows']):
+        return sorted(bad | {'not-a-table'})
+    sep = (' \u2502 ' if o['unicode'] else ' | ') if o['boxed'] else '  '
+    dc = dcontext_of(case)
+    null = o['nullvalue']
+    anchors = set()
+    cells_by_row = []
+    for i, r in enumerate(case['rows']):
+        ln = body[i * step]
+        cells = []
+        for j, ((off, w), (_, t), c) in enumerate(zip(spans, case['cols'], r)):
+            cell = ln[off:off + w]
+            cells.append(cell)
+            if j + 1 < len(spans) and ln[off + w:off + w + len(sep)] != sep:
+                bad.add('column-not-at-its-offset')
+            if j + 1 == len(spans) and len(ln) != off + w + (2 if o['boxed'] else 0):
+                bad.add('column-not-at-its-offset')
+            if c is None:
+                if cell.strip() != null.strip():
+                    bad.add('null-cell')
+                continue
+            if t != 'cost':
+                if cell.strip() != _plain(c).strip():
+                    bad.add('cell-not-read-back:' + t)
+                continue
+            m = COST_RE.match(cell)
+            if m is None:
+                bad.add('cost-cell-not-read-back')
+                continue
+            if D(m.group('num')) != dc.quantize(D(c[1]), c[2]) or m.group('cur') != c[2]:
+                bad.add('cost-amount-not-read-back')
+            if m.group('date') != (None if c[3] is None else datetime.date(*c[3]).isoformat()):
+                bad.add('cost-date-not-read-back')
+            if c[4] is None:
+                if m.group('label') is not None:
+                    bad.add('cost-label-not-read-back')
+            elif m.group('label') not in (c[4], _bql_string(c[4])):
+                bad.add('cost-label-not-read-back')
+            anchors.add((m.start('num') + len(m.group('num').split('.')[0]), m.start('cur')))
+        cells_by_row.append(cells)
+    if len(anchors) > 1:
+        bad.add('cost-numbers-not-aligned')
+    import csv as _csv
+    recs = list(_csv.reader(io.StringIO(csvtext)))
+    if len(recs) != len(case['rows']) + 1 or any(len(rec) != len(case['cols']) for rec in recs):
+        bad.add('csv-shape')
+    else:
+        for rec, cells, r in zip(recs[1:], cells_by_row, case['rows']):
+            for f, cell, c, (_, t) in zip(rec, cells, r, case['cols']):
+                if c is not None and f.strip() != cell.strip():
+                    bad.add('csv-field-differs-from-text-cell:' + t)
+    return sorted(bad)
+
+
+def run_cost(arg):
+    """(case, opts) -> {'text', 'csv', 'fails': [code]}. Top level for core.pmap."""
+    case, o = arg
+    cols = [Column(n, PY_T[t]) for n, t in case['cols']]
+    rows = [tuple(cell_py(c) for c in r) for r in case['rows']]
+    dc = dcontext_of(case)
+    res = {}
+    for key, fn in (('text', query_render.render_text), ('csv', query_render.render_csv)):
+        try:
+            out = io.StringIO()
+            fn(cols, rows, dc, out, **o)
+            res[key] = out.getvalue()
+        except Exception as e:  # noqa: BLE001
+            res[key] = ['exception', type(e).__name__, str(e)[:200]]
+    try:
+        res['fails'] = check_cost_text(case, o, res['text'], res['csv'])
+    except Exception as e:  # noqa: BLE001
+        res['fails'] = ['oracle-exception:' + type(e).__name__ + ':' + str(e)[:100]]
+    return res
+
+
+def shrink_cost(case, o, code):
+    """fewer rows, then fewer columns, then default options, keeping the failure code"""
+    def fails(c, oo):
+        return code in run_cost((c, oo))['fails']
+    i = 0
+    while i < len(case['rows']) and len(case['rows']) > 1:
+        c2 = dict(case, rows=case['rows'][:i] + case['rows'][i + 1:])
+        if fails(c2, o):
+            case = c2
+        else:
+            i += 1
+    j = 0
+    while j < len(case['cols']) and len(case['cols']) > 1:
+        c2 = dict(case, cols=case['cols'][:j] + case['cols'][j + 1:], rows=[r[:j] + r[j + 1:] for r in case['rows']])
+        if case['cols'][j][1] != 'cost' and fails(c2, o):
+            case = c2
+        else:
+            j += 1
+    for key, val in (('boxed', False), ('unicode', False), ('spaced', False), ('narrow', True), ('expand', False),
+                     ('nullvalue', ''), ('listsep', '  ')):
+        if o[key] != val and fails(case, dict(o, **{key: val})):
+            o = dict(o, **{key: val})
+    return case, o
+
+
+def cost_label_features(case):
+    fs = set()
+    for r in case['rows']:
+        for c in r:
+            if c is not None and c[0] == 'C' and c[4] is not None:
+                lab = c[4]
+                fs |= {f for f, p in (('dquote', '"' in lab), ('backslash', '\\' in lab), ('non-ascii', not lab.isascii()),
+                                      ('blank', lab != lab.strip() or ' ' in lab), ('empty', lab == '')) if p}
+    return sorted(fs)
+
+
 CORPUS = [
     # D11: scientific decimals
     ({'cols': [['x', 'decimal']], 'rows': [[['d', '1E-7']], [['d', '12.5']]], 'prec': {}},
@@ -831,8 +1013,49 @@ def run(tier, rng):
                          f'text {res[0]["text"]!r}',
                 {'case': small, 'opts': so, 'fail': list(fail), 'impl': {k: res[0][k] for k in ('text', 'csv', 'hyp')}},
                 signature=sig))
+    # Cost columns: harness oracle on the emitted text (check_cost_text); not part of the Coq model
+    ncost = 260 if tier == 'quick' else 2500
+    cpairs = []
+    for k in range(ncost):
+        case = gen_cost_table(rng)
+        for b in rng.sample(range(32), 3 if tier == 'quick' else 6):
+            cpairs.append((case, gen_opts(rng, b)))
+    cres = core.pmap(run_cost, cpairs)
+    chist = {'tables': ncost, 'evaluations': len(cpairs), 'cost_cells': 0, 'label_features': {}, 'failures': {},
+             'tables_whose_longest_label_needs_escaping': 0, 'tables_with_unknown_currency': 0}
+    seen_c = set()
+    for (case, o), r in zip(cpairs, cres):
+        key = json.dumps(case, sort_keys=True)
+        if key not in seen_c:
+            seen_c.add(key)
+            labs = [c[4] for row in case['rows'] for c in row if c is not None and c[0] == 'C' and c[4] is not None]
+            chist['cost_cells'] += sum(1 for row in case['rows'] for c in row if c is not None and c[0] == 'C')
+            for f in cost_label_features(case):
+                chist['label_features'][f] = chist['label_features'].get(f, 0) + 1
+            if labs and any(ch in max(labs, key=len) for ch in '"\\'):
+                chist['tables_whose_longest_label_needs_escaping'] += 1
+            chist['tables_with_unknown_currency'] += any(c is not None and c[0] == 'C' and c[2] not in case['prec']
+                                                         for row in case['rows'] for c in row)
+        for code in r['fails']:
+            chist['failures'][code] = chist['failures'].get(code, 0) + 1
+    reported = set()
+    first = ['lines-of-different-width', 'column-not-at-its-offset', 'not-a-table']      # causes before consequences
+    for (case, o), r in zip(cpairs, cres):
+        for code in sorted(r['fails'], key=lambda c: (first.index(c) if c in first else len(first), c)):
+            if code in reported or len(reported) >= 3:
+                continue
+            reported.add(code)
+            small, so = shrink_cost(case, o, code)
+            res1 = run_cost((small, so))
+            sig = f'cost-table:{code}:{",".join(cost_label_features(small)) or "plain"}'
+            violations.append(core.Violation(
+                'cost-table', f'{sig}: table {json.dumps(small)} options {json.dumps(so)} -> failures {res1["fails"]}; '
+                              f'text {res1["text"]!r}',
+                {'stream': 'cost', 'case': small, 'opts': so, 'fail': ['cost-table', code],
+                 'impl': {k: res1[k] for k in ('text', 'csv')}}, signature=sig))
     cov = {
-        'evaluations': len(pairs), 'distinct_nontrivial': nontrivial,
+        'evaluations': len(pairs) + len(cpairs), 'distinct_nontrivial': nontrivial + sum(1 for (c, _), r in zip(cpairs, cres) if c['rows'] and isinstance(r['text'], str)),
+        'cost_columns': chist,
         'rule': 'random result tables (1-4 columns of int/decimal/str/date/bool/set/object/dict/amount/position/inventory, '
                 '0-7 rows, NULLs, negatives, mixed precisions, 1-8 currencies, empty and multi-lot inventories, costs) x option '
                 'sets (quick: 6 of the 32 boolean combinations per table, thorough: all 32) x nullvalue in 5 choices x listsep in 5 '
@@ -842,6 +1065,10 @@ def run(tier, rng):
                 'inventory column (1-3 commodities, <= 5 slots, lots with and without cost of one commodity in different rows, columns to its right) '
                 'with the per-slot offset oracle slot_alignment (units / costs of the k-th lot of a commodity at one offset in every row), which '
                 'is applied to every non-expanded inventory column of every table; about 30% of all tables have currencies unknown to the ledger context; '
+                'Cost columns (CostRenderer; labels with double quotes, backslashes, non-ASCII, blanks, empty; with / without date; NULLs; '
+                'columns to the left and right; known and unknown currencies) are rendered by render_text / render_csv and judged by the '
+                'harness oracle check_cost_text on the emitted text: one line width, columns and separators at the offsets of the rule line, '
+                'every cell read back, cost numbers aligned on the decimal point, CSV field = text cell; '
                 'non-trivial = (table, options) with at least one row that rendered',
         'samples': [json.dumps({'table': c, 'opts': o}) for c, o in pairs[len(CORPUS):len(CORPUS) + 3]],
         'traces_validated_against_impl': len(pairs), 'histograms': hist,
@@ -852,5 +1079,9 @@ def run(tier, rng):
 
 
 def replay(rec):
+    if rec.get('stream') == 'cost':
+        r = run_cost((rec['case'], rec['opts']))
+        core.log(f'  cost table: failures {r["fails"]}; text {r["text"]!r}')
+        return not r['fails']
     fl, _ = evaluate([(rec['case'], rec['opts'])], tag='c16r')
     return tuple(rec['fail']) not in [tuple(x) for x in fl[0]] and not fl[0]
